@@ -491,7 +491,10 @@ func (p *Program) expandedAway(fn *ssa.Function) bool {
 	if v, ok := p.expanded[top]; ok {
 		return v
 	}
-	away := len(p.Callers(top)) == 0
+	// expanded at one site at least and called nowhere any more.  A new function nobody calls statically and that was
+	// never expanded (a method a library reaches by reflection or through an interface: UnmarshalYAML, String,
+	// ServeHTTP; a goroutine body) is code of its own and is judged as such
+	away := len(p.Callers(top)) == 0 && ssa.InlinedCalls[obj.FullName()] > 0
 	p.expanded[top] = away
 	return away
 }
